@@ -4,6 +4,7 @@ import (
 	"testing"
 	"time"
 
+	"github.com/enbility/spine-go/api"
 	"github.com/enbility/spine-go/model"
 )
 
@@ -90,5 +91,42 @@ func TestReplay_C10_CleanWriteApprovalCachesDropsPendingAndTally(t *testing.T) {
 	}
 	if !pendB || tallyB != 1 {
 		t.Errorf("C10 violated: the other peer lost its pending approval (%v) or tally (%d)", pendB, tallyB)
+	}
+}
+
+// Replay for the C10 contract of (*DeviceLocal).RemoveRemoteDevice: afterwards the peer cannot be resolved by SKI or
+// address and its registry entries are gone; another peer with identical entity and feature numbers keeps everything.
+func TestReplay_C10_RemoveRemoteDeviceLeavesOtherPeer(t *testing.T) {
+	w := rpNewWorld(t, 2)
+	s1 := w.localFeature(model.FeatureTypeTypeLoadControl, model.RoleTypeServer)
+	s2 := w.localFeature(model.FeatureTypeTypeGeneric, model.RoleTypeServer)
+	a, b := w.peers[0], w.peers[1]
+	ca := a.feature(model.FeatureTypeTypeGeneric, model.RoleTypeClient)
+	cb := b.feature(model.FeatureTypeTypeGeneric, model.RoleTypeClient)
+	sm, bm := w.local.SubscriptionManager(), w.local.BindingManager()
+	for _, x := range []struct {
+		p *rpPeer
+		c *FeatureRemote
+		s api.FeatureLocalInterface
+	}{{a, ca, s1}, {b, cb, s2}} {
+		if err := sm.AddSubscription(x.p.dev, rpSubReq(x.c.Address(), x.s.Address(), x.s.Type())); err != nil {
+			t.Fatalf("setup: %v", err)
+		}
+		if err := bm.AddBinding(x.p.dev, rpBindReq(x.c.Address(), x.s.Address(), x.s.Type())); err != nil {
+			t.Fatalf("setup: %v", err)
+		}
+	}
+	w.local.RemoveRemoteDevice(a.ski)
+	if w.local.RemoteDeviceForSki(a.ski) != nil || w.local.RemoteDeviceForAddress(*a.dev.Address()) != nil {
+		t.Errorf("C10 violated: the removed peer can still be resolved")
+	}
+	if len(sm.Subscriptions(a.dev)) != 0 || len(bm.Bindings(a.dev)) != 0 {
+		t.Errorf("C10 violated: the removed peer still has %d subscriptions / %d bindings", len(sm.Subscriptions(a.dev)), len(bm.Bindings(a.dev)))
+	}
+	if w.local.RemoteDeviceForSki(b.ski) == nil || w.local.RemoteDeviceForAddress(*b.dev.Address()) == nil {
+		t.Errorf("C10 violated: the other peer can no longer be resolved")
+	}
+	if len(sm.Subscriptions(b.dev)) != 1 || len(bm.Bindings(b.dev)) != 1 {
+		t.Errorf("C10 violated: the other peer has %d subscriptions / %d bindings left (want 1 / 1)", len(sm.Subscriptions(b.dev)), len(bm.Bindings(b.dev)))
 	}
 }
